@@ -508,6 +508,20 @@ def ex_Lambda(self, node, fr):
 
 def _comp(self, node, fr, kind):
     env0 = fr.env
+    # a comprehension over a short literal sequence is the literal list of its elements
+    if kind in ('list', 'gen') and len(node.generators) == 1 and not node.generators[0].ifs:
+        it0 = self.ev(node.generators[0].iter, fr)
+        ia = it0.single_atom()
+        if ia is not None and ia.kind in ('list', 'tuple') and len(ia.args) <= 4:
+            out = []
+            try:
+                for item in ia.args:
+                    fr.env = dict(env0)
+                    self.assign(node.generators[0].target, item, fr, node, quiet=True)
+                    out.append(self.ev(node.elt, fr))
+            finally:
+                fr.env = env0
+            return T.mk_tuple(out, 'list')
     fr.env = dict(env0)
     gens = []
     try:
